@@ -778,6 +778,23 @@ func evaluate(in *snapInput, seed uint64, nOrders int, fixed *orderSpec) (*simh.
 				"the same call returns different geometry after an unrelated call (tms %s ids %v) was made in between: first %s ; then %s", other.TMS, other.IDs, describe(r0), describe(r5))}, nil, "history", st
 		}
 	}
+	if schedOn && !r0.panicked {
+		// oracle 6: goroutines inside the snapping code, under three seeded schedules
+		for k := uint64(1); k <= 3; k++ {
+			r6, bad := callScheduled(in, seed*4+k)
+			st.calls++
+			st.probes.Inc("oracle6-schedule-independence")
+			if bad != "" {
+				simrt.SetMapOrder(simrt.MapNative, 0)
+				return &simh.Violation{Class: "determinism/schedule-" + strings.SplitN(bad, ":", 2)[0], Message: "snapping inside the scheduler (schedule seed " + strconv.FormatUint(seed*4+k, 10) + "): " + bad}, nil, "schedule", st
+			}
+			if canon(r6) != c0 {
+				simrt.SetMapOrder(simrt.MapNative, 0)
+				return &simh.Violation{Class: "determinism/schedule", Message: fmt.Sprintf(
+					"same polygon, same settings, different result under goroutine schedule seed %d: %s ; sequential-looking run gave %s", seed*4+k, describe(r6), describe(r0))}, nil, "schedule", st
+			}
+		}
+	}
 	if in.Valid && !r0.panicked {
 		// oracle 3: rings handed over in the opposite direction
 		r3 := call(in, in.IDs, withReversedRings(in), in.Reverse)
@@ -892,7 +909,33 @@ func probe(in *snapInput, r0 result, st *evalStats) {
 // ------------------------------------------------------------------------------------
 // entry point
 
+// schedT / schedOn: when the snapping code itself starts goroutines (a changed tree; the
+// pinned one does not), every input is additionally snapped inside a synctest bubble under
+// three seeded schedules, and the result must not depend on the schedule (oracle 6).
+var (
+	schedT  *testing.T
+	schedOn bool
+)
+
+func callScheduled(in *snapInput, schedSeed uint64) (res result, outcome string) {
+	fr := simrt.NewRNG(schedSeed, "snapsim-sched")
+	fp := simrt.FaultPlan{Policy: simrt.Policy(fr.Intn(4)), StallRate: 0.1 * fr.Float(), StallMax: 1 + fr.Intn(20),
+		LateStartRate: 0.5 * fr.Float(), LateStartMax: 1 + fr.Intn(20), BurstRate: 0.1 * fr.Float(), BurstMax: 1 + fr.Intn(5), SlowFrac: 0.3, PCTDepth: 1 + fr.Intn(3)}
+	opt := simrt.Options{Seed: schedSeed, Faults: fp, MaxSteps: 200000}
+	sim, leak := simh.RunBubble(schedT, opt, func() {
+		res = call(in, in.IDs, in.Rings, in.Reverse)
+	}, nil)
+	switch {
+	case sim.Outcome != "ok":
+		return res, sim.Outcome + ": " + sim.Detail
+	case leak != "":
+		return res, "goroutine-leak: " + leak
+	}
+	return res, ""
+}
+
 func TestVerifSnapsim(t *testing.T) {
+	schedT = t
 	job, err := simh.LoadJob()
 	if err != nil {
 		t.Fatal(err)
@@ -906,6 +949,7 @@ func TestVerifSnapsim(t *testing.T) {
 	}
 	defer out.Close()
 	log.SetOutput(io.Discard)
+	schedOn = job.Extra["concurrent"] == "1"
 	switch job.Mode {
 	case "explore":
 		explore(job, out)
@@ -1063,6 +1107,9 @@ func candidates(job *simh.Job, out *simh.Out) {
 				}
 			}
 		default:
+			if rf.Oracle == "schedule" {
+				schedOn = true
+			}
 			for k := rf.Prelude; k >= 1; k-- {
 				if rf.Seed >= uint64(k) {
 					pin := genInput(rf.Seed - uint64(k))
